@@ -142,6 +142,8 @@ class IndexInterp:
                             ast.Mod: lambda: a % b, ast.Div: lambda: a / b, ast.Pow: lambda: a ** b}[type(e.op)]()
                 except (KeyError, ZeroDivisionError):
                     raise AnalysisError("arithmetic `%s`" % src(e))
+            if (isinstance(a, VecObj) or isinstance(b, VecObj)) and isinstance(e.op, ast.Add) and (a == 0 and isinstance(a, int) or b == 0 and isinstance(b, int)):
+                return b if isinstance(b, VecObj) else a          # sum(...) starting from the integer 0
             if isinstance(a, VecObj) or isinstance(b, VecObj):
                 from .nf import v_add, v_sub, v_mul, v_div, Rat, SortError, PointV
                 from fractions import Fraction
@@ -370,6 +372,14 @@ class IndexInterp:
             return list(reversed(self._iterate(args[0], e)))
         if plain and nm == "len" and len(args) == 1 and isinstance(args[0], (list, tuple, dict)) and not is_token(args[0]):
             return len(args[0])
+        if plain and nm == "sum" and 1 <= len(args) <= 2 and isinstance(args[0], (list, tuple)) and not is_token(args[0]):
+            acc = args[1] if len(args) == 2 else kw.get("start", 0)
+            for k0, v0 in enumerate(args[0]):
+                self.env["__sum_l"], self.env["__sum_r"] = acc, v0
+                acc = self.ev(ast.BinOp(left=ast.Name(id="__sum_l", ctx=ast.Load()), op=ast.Add(), right=ast.Name(id="__sum_r", ctx=ast.Load())))
+            self.env.pop("__sum_l", None)
+            self.env.pop("__sum_r", None)
+            return acc
         if plain and nm in ("max", "min") and args and all(isinstance(a, (int, float)) for a in args):
             return max(args) if nm == "max" else min(args)
         if plain and nm == "int" and len(args) == 1 and isinstance(args[0], str):
@@ -441,6 +451,11 @@ class IndexInterp:
                 base.order.append((idx, value))
             elif isinstance(base, list) and isinstance(idx, int):
                 base[idx] = value
+            elif isinstance(base, dict):
+                try:
+                    base[idx] = value
+                except TypeError:
+                    raise AnalysisError("unhashable key in `%s`" % src(target))
             else:
                 raise AnalysisError("store into `%s`" % src(target))
         elif isinstance(target, ast.Attribute):
